@@ -308,3 +308,290 @@ Proof.
   split; [vm_compute; reflexivity|].
   split; [vm_compute; left; reflexivity|]. repeat split; vm_compute; reflexivity.
 Qed.
+
+(* ================================================================================================ *)
+(* RUN LEVEL (TowerRuns.v): the statements above hold at every moment of every history.
+   A moment is a cut  h = pre ++ (o, sc) :: post  of the history: the step starts from
+   fst (run le t0 pre) and leaves fst (run le t0 (pre ++ [(o, sc)])).  Hypotheses: a bootstrapped tower
+   (TowerLive.big_init) and a history inside the envelope / chain discipline of TowerLive.v (C11: then no
+   step aborts).  Proved by induction over the run. *)
+From TeosModel Require Import TowerReorg TowerLive TowerRuns.
+
+(* "the tower ... submits the resulting penalty transaction before it finishes handling that block":
+   along EVERY history, EVERY block connection (gatekeeper tg, watcher tw, responder t' in the generated
+   order) answers EVERY appointment row that is present before the step, whose locator is in the block,
+   that has not been responded to yet and whose owner survives this block's purge (height + 1 < expiry +
+   grace).  breach_outcome_w is the conclusion of C01_block_breaches (about the watcher's pass tg -> tw),
+   breach_outcome_step the conclusion of C01_connect_step (about the whole step t -> t'). *)
+Theorem C01_every_breach_answered_run le c h0 blocks t0 h pre hash txs sc post :
+  init c h0 blocks = Some t0 -> NoDup (map fst blocks) -> N.of_nat (length blocks) <= h0 ->
+  in_envelope le t0 h = true -> chain_disciplined le t0 h = true ->
+  h = pre ++ (OConnect hash txs, sc) :: post ->
+  let t := fst (run le t0 pre) in
+  exists tg tw t',
+    gk_block_connected (fresh t) (gk_height t + 1) = Ok tt tg /\
+    w_block_connected sc tg (cache_block hash txs) (gk_height t + 1) = Ok tt tw /\
+    r_block_connected le sc tw (index_block hash txs) (gk_height t + 1) = Ok tt t' /\
+    step le t (OConnect hash txs) sc = (t', OBlockRes) /\
+    fst (run le t0 (pre ++ [(OConnect hash txs, sc)])) = t' /\
+    forall a ui,
+      In a (db_apps t) -> memN (a_loc a) txs = true -> find_trk (db_trks t) (app_uuid a) = None ->
+      aget (db_users t) (a_user a) = Some ui -> gk_height t + 1 < u_expiry ui + c_delta (cfg t) ->
+      In a (db_apps tg) /\ breach_outcome_w sc tg tw a /\ breach_outcome_step sc txs t t' a.
+Proof. exact (breach_answered_run le c h0 blocks t0 h pre hash txs sc post). Qed.
+
+(* the vocabulary, unfolded *)
+Theorem C01_breach_outcome_w_eq sc tg tw a :
+  breach_outcome_w sc tg tw a =
+  match decrypt (a_blob a) (a_loc a) with
+  | None => dropped tw (app_uuid a)
+  | Some p =>
+      let s := breach_status sc tg p in
+      penalty_handled sc tg tw p /\
+      (status_accepted s = true -> In a (db_apps tw) /\ responded tw (app_uuid a) (a_loc a) p s) /\
+      (status_rejected s = true -> dropped tw (app_uuid a)) /\
+      (status_accepted s = false -> status_rejected s = false ->
+       In a (db_apps tw) /\ find_trk (db_trks tw) (app_uuid a) = None)
+  end.
+Proof. reflexivity. Qed.
+
+Theorem C01_breach_outcome_step_eq sc txs t t' a :
+  breach_outcome_step sc txs t t' a =
+  match decrypt (a_blob a) (a_loc a) with
+  | None => dropped t' (app_uuid a)
+  | Some p =>
+      let s := breach_status sc t p in
+      penalty_handled sc t t' p /\
+      (status_accepted s = true ->
+       touchable txs (gk_height t + 1) (reorged t) (new_trk (app_uuid a) (a_loc a) p s) = false ->
+       In a (db_apps t') /\ In (new_trk (app_uuid a) (a_loc a) p s) (db_trks t')) /\
+      (status_rejected s = true -> dropped t' (app_uuid a)) /\
+      (status_accepted s = false -> status_rejected s = false ->
+       In a (db_apps t') /\ find_trk (db_trks t') (app_uuid a) = None)
+  end.
+Proof. reflexivity. Qed.
+
+(* "... or was confirmed in one of the six most recent blocks when the appointment was accepted ... before
+   answering the request": along EVERY history, EVERY add_appointment whose locator is in the watcher's
+   cache at that moment is answered as C01_add_triggered states (late_outcome is its conclusion, with the
+   step's own RPC log: it starts empty). *)
+Theorem C01_late_breach_answered_run le c h0 blocks t0 h pre signer loc b delay sig sc post d :
+  init c h0 blocks = Some t0 -> NoDup (map fst blocks) -> N.of_nat (length blocks) <= h0 ->
+  in_envelope le t0 h = true -> chain_disciplined le t0 h = true ->
+  h = pre ++ (OAdd signer loc b delay sig, sc) :: post ->
+  let t := fst (run le t0 pre) in
+  ti_get (w_cache t) loc = Some d ->
+  exists r t', step le t (OAdd signer loc b delay sig) sc = (t', OAddRes r) /\
+               fst (run le t0 (pre ++ [(OAdd signer loc b delay sig, sc)])) = t' /\
+               late_outcome sc t t' signer loc b delay sig d r.
+Proof. exact (late_breach_answered_run le c h0 blocks t0 h pre signer loc b delay sig sc post d). Qed.
+
+Theorem C01_late_outcome_eq sc t t' signer loc b delay sig d r :
+  late_outcome sc t t' signer loc b delay sig d r =
+  match r with
+  | AddOk st sg sl e =>
+      exists u, signer = Some u /\ st = w_height t /\ sg = sig /\
+        let a := mk_app loc u b delay sig (w_height t) in
+        find_trk (db_trks t) (loc, u) = None /\
+        others_kept t t' (loc, u) /\
+        match decrypt b d with
+        | None => dropped t' (loc, u) /\ rpc_log t' = []
+        | Some p =>
+            let s := breach_status sc t p in
+            rpc_log t' = breach_events sc t p /\
+            penalty_handled sc t t' p /\
+            (status_accepted s = true -> find_app (db_apps t') (loc, u) = Some a /\ responded t' (loc, u) d p s) /\
+            (status_rejected s = true -> dropped t' (loc, u)) /\
+            (status_accepted s = false -> status_rejected s = false ->
+             find_app (db_apps t') (loc, u) = Some a /\ find_trk (db_trks t') (loc, u) = None)
+        end
+  | _ => t' = fresh t
+  end.
+Proof. reflexivity. Qed.
+
+(* the life of a tracker, ONE STEP, both directions: after the step the tracker is gone iff trk_end_of names
+   one of five reasons (all of them block connections: owner purged at expiry + grace; dispute mined again
+   and the appointment dropped by the watcher; rejected on re-submission after a reorg; completed at
+   IRREVOCABLY_RESOLVED confirmations; rejected on the stale re-broadcast); otherwise it is still there with
+   the same dispute and penalty *)
+Theorem C01_tracker_fate le t o sc t' x uuid k :
+  Inv t -> step le t o sc = (t', x) -> not_abort x -> find_trk (db_trks t) uuid = Some k ->
+  match trk_end_of t o sc uuid with
+  | Some _ => find_trk (db_trks t') uuid = None
+  | None => exists k', find_trk (db_trks t') uuid = Some k' /\ t_dispute k' = t_dispute k /\ t_penalty k' = t_penalty k
+  end.
+Proof. exact (tracker_fate le t o sc t' x uuid k). Qed.
+
+(* what the five reasons are (trk_end_of read backwards; the C04 theorems say what else happens then) *)
+Theorem C01_tracker_end_reasons t o sc uuid why :
+  trk_end_of t o sc uuid = Some why ->
+  exists hash txs k ui,
+    o = OConnect hash txs /\ find_trk (db_trks t) uuid = Some k /\ aget (db_users t) (snd uuid) = Some ui /\
+    match why with
+    | E_purged => u_expiry ui + c_delta (cfg t) <= gk_height t + 1
+    | _ =>
+        gk_height t + 1 < u_expiry ui + c_delta (cfg t) /\
+        exists tg a, gk_block_connected (fresh t) (gk_height t + 1) = Ok tt tg /\ find_app (db_apps tg) uuid = Some a /\
+        match why with
+        | E_dropped_by_watcher => survives_block sc tg txs a = false
+        | _ =>
+            survives_block sc tg txs a = true /\
+            exists tw, w_block_connected sc tg (cache_block hash txs) (gk_height t + 1) = Ok tt tw /\
+            memN (t_penalty k) txs = false /\
+            match why with
+            | E_reorg_rejected =>
+                mem_uuid (trk_uuid k) (reorged t) = true /\
+                (status_rejected (blk_eff sc tw (gk_height t + 1) (t_dispute k)) = true \/
+                 status_rejected (blk_eff sc tw (gk_height t + 1) (t_penalty k)) = true)
+            | E_completed =>
+                mem_uuid (trk_uuid k) (reorged t) = false /\ t_conf k = true /\ gk_height t + 1 - t_height k = IRR
+            | E_stale_rejected =>
+                mem_uuid (trk_uuid k) (reorged t) = false /\ t_conf k = false /\
+                t_height k <= gk_height t + 1 - RETRY /\
+                status_rejected (blk_eff sc tw (gk_height t + 1) (t_penalty k)) = true
+            | _ => False
+            end
+        end
+    end.
+Proof. exact (trk_end_of_meaning t o sc uuid why). Qed.
+
+(* "from then on reported as dispute_responded with exactly that penalty and dispute" — until: once a tracker
+   exists after some prefix `pre` of a run, along every continuation `mid` in which no step is an ending
+   step for it, it is still there with that dispute and penalty, and EVERY get_appointment of its owner for
+   that locator on the way answers GetTrk dispute penalty — or, when the owner's subscription has expired
+   (height >= expiry, before the purge at expiry + grace), the subscription-expired error of C09: the
+   literal "reported as dispute_responded" is false in that window (C01_responded_forever_refuted). *)
+Theorem C01_responded_forever_run le c h0 blocks t0 h pre mid post uuid k :
+  init c h0 blocks = Some t0 -> NoDup (map fst blocks) -> N.of_nat (length blocks) <= h0 ->
+  in_envelope le t0 h = true -> chain_disciplined le t0 h = true ->
+  h = pre ++ mid ++ post ->
+  find_trk (db_trks (fst (run le t0 pre))) uuid = Some k ->
+  (forall m1 o sc m2, mid = m1 ++ (o, sc) :: m2 -> trk_end_of (fst (run le t0 (pre ++ m1))) o sc uuid = None) ->
+  (exists k', find_trk (db_trks (fst (run le t0 (pre ++ mid)))) uuid = Some k' /\
+              t_dispute k' = t_dispute k /\ t_penalty k' = t_penalty k) /\
+  (forall m1 sc m2, mid = m1 ++ (OGet (Some (snd uuid)) (fst uuid), sc) :: m2 ->
+     let t := fst (run le t0 (pre ++ m1)) in
+     exists ui, gk_get t (snd uuid) = Some ui /\
+       snd (step le t (OGet (Some (snd uuid)) (fst uuid)) sc) =
+       OGetRes (if N.leb (u_expiry ui) (gk_height t) then GetExpired (u_expiry ui)
+                else GetTrk (t_dispute k) (t_penalty k))).
+Proof. exact (responded_forever_run le c h0 blocks t0 h pre mid post uuid k). Qed.
+
+(* ... and at EVERY step of a run: gone afterwards iff it is an ending step *)
+Theorem C01_tracker_end_exact_run le c h0 blocks t0 h pre o sc post uuid k :
+  init c h0 blocks = Some t0 -> NoDup (map fst blocks) -> N.of_nat (length blocks) <= h0 ->
+  in_envelope le t0 h = true -> chain_disciplined le t0 h = true ->
+  h = pre ++ (o, sc) :: post ->
+  find_trk (db_trks (fst (run le t0 pre))) uuid = Some k ->
+  match trk_end_of (fst (run le t0 pre)) o sc uuid with
+  | Some _ => find_trk (db_trks (fst (run le t0 (pre ++ [(o, sc)])))) uuid = None
+  | None => exists k', find_trk (db_trks (fst (run le t0 (pre ++ [(o, sc)])))) uuid = Some k' /\
+                       t_dispute k' = t_dispute k /\ t_penalty k' = t_penalty k
+  end.
+Proof. exact (tracker_end_exact_run le c h0 blocks t0 h pre o sc post uuid k). Qed.
+
+(* the "until" hypothesis is a computation on concrete histories *)
+Theorem C01_never_ends_cuts le mid t uuid :
+  Forall not_abort (snd (run le t mid)) -> never_ends le t mid uuid = true ->
+  forall m1 o sc m2, mid = m1 ++ (o, sc) :: m2 -> trk_end_of (fst (run le t m1)) o sc uuid = None.
+Proof. exact (never_ends_cuts le mid t uuid). Qed.
+
+Print Assumptions C01_every_breach_answered_run.
+Print Assumptions C01_breach_outcome_w_eq.
+Print Assumptions C01_breach_outcome_step_eq.
+Print Assumptions C01_late_breach_answered_run.
+Print Assumptions C01_late_outcome_eq.
+Print Assumptions C01_tracker_fate.
+Print Assumptions C01_tracker_end_reasons.
+Print Assumptions C01_responded_forever_run.
+Print Assumptions C01_tracker_end_exact_run.
+Print Assumptions C01_never_ends_cuts.
+
+(* ---------- non-vacuity of the run-level statements: one concrete history ---------- *)
+(* user 1 (duration 3, grace 2) hands over (500 -> 900); block 2001 carries the dispute, the node takes
+   the penalty; the owner reads it back; blocks 2002.. pass: at height 203 the subscription has expired
+   (reads answer SubscriptionExpired), at height 205 = expiry + grace the user is purged with the tracker *)
+Definition C01_ex_c3 := mk_config 10 3 2.
+Definition C01_ex_t3 := match init C01_ex_c3 200 C01_ex_blocks0 with Some t => t | None => C01_ex_dummy end.
+Definition C01_ex_run_pre : list (op * script) := C01_ex_pre C01_ex_good.
+Definition C01_ex_run_connect : op * script := (OConnect 2001 [500], [(900, (G_not_found, A_ok))]).
+Definition C01_ex_run_mid : list (op * script) :=
+  [(OGet (Some 1) 500, []); (OConnect 2002 [], []); (OGet (Some 1) 500, []); (OConnect 2003 [], []); (OGet (Some 1) 500, []);
+   (OConnect 2004 [], [])].
+Definition C01_ex_run_post : list (op * script) := [(OConnect 2005 [], []); (OGet (Some 1) 500, [])].
+Definition C01_ex_run_hist := C01_ex_run_pre ++ C01_ex_run_connect :: C01_ex_run_mid ++ C01_ex_run_post.
+
+Lemma C01_ex_blocks0_nodup : NoDup (map fst C01_ex_blocks0).
+Proof. repeat (constructor; [cbn; intuition discriminate|]). constructor. Qed.
+
+Example C01_ex_run_hyps :
+  init C01_ex_c3 200 C01_ex_blocks0 = Some C01_ex_t3 /\ N.of_nat (length C01_ex_blocks0) <= 200 /\
+  in_envelope true C01_ex_t3 C01_ex_run_hist = true /\ chain_disciplined true C01_ex_t3 C01_ex_run_hist = true.
+Proof. repeat split; vm_compute; try reflexivity. discriminate. Qed.
+
+(* the premises of C01_every_breach_answered_run about the row hold at the cut before block 2001 ... *)
+Example C01_ex_run_breach_premises :
+  let t := fst (run true C01_ex_t3 C01_ex_run_pre) in
+  let a := mk_app 500 1 C01_ex_good 20 77 200 in
+  In a (db_apps t) /\ memN (a_loc a) [500] = true /\ find_trk (db_trks t) (app_uuid a) = None /\
+  aget (db_users t) (a_user a) = Some (mk_uinfo 9 200 203) /\ gk_height t + 1 < 203 + c_delta (cfg t).
+Proof. vm_compute. repeat split; try reflexivity. left. reflexivity. Qed.
+
+(* ... and the theorem then yields the tracker (500, 900) in that step *)
+Example C01_ex_run_breach_applied :
+  exists tw t', fst (run true C01_ex_t3 (C01_ex_run_pre ++ [C01_ex_run_connect])) = t' /\
+    In (mk_app 500 1 C01_ex_good 20 77 200) (db_apps tw) /\
+    responded tw (500, 1) 500 900 (InMempoolSince 200).
+Proof.
+  destruct C01_ex_run_hyps as [Hi [Hlen [He Hc]]].
+  destruct (C01_every_breach_answered_run true C01_ex_c3 200 C01_ex_blocks0 C01_ex_t3 C01_ex_run_hist
+              C01_ex_run_pre 2001 [500] [(900, (G_not_found, A_ok))] (C01_ex_run_mid ++ C01_ex_run_post)
+              Hi C01_ex_blocks0_nodup Hlen He Hc eq_refl) as [tg [tw [t' [Eg [_ [_ [_ [Erun Hall]]]]]]]].
+  destruct C01_ex_run_breach_premises as [P1 [P2 [P3 [P4 P5]]]].
+  destruct (Hall _ _ P1 P2 P3 P4 P5) as [_ [Hw _]].
+  exists tw, t'. split; [exact Erun|].
+  unfold breach_outcome_w in Hw. cbn [a_blob a_loc decrypt C01_ex_good b_key b_pay] in Hw.
+  change (N.eqb 500 500) with true in Hw. cbv iota zeta in Hw. destruct Hw as [_ [Hacc _]].
+  assert (Es : breach_status [(900, (G_not_found, A_ok))] tg 900 = InMempoolSince 200).
+  { revert Eg. vm_compute. intros Eg. injection Eg as <-. reflexivity. }
+  rewrite Es in Hacc. exact (Hacc eq_refl).
+Qed.
+
+(* the tracker exists after block 2001; no step of C01_ex_run_mid ends it (computed); so it is reported at every read on the
+   way: DisputeResponded (500, 900) at heights 201 and 202, SubscriptionExpired 203 at height 203 *)
+Example C01_ex_run_forever_applied :
+  let pre := C01_ex_run_pre ++ [C01_ex_run_connect] in
+  never_ends true (fst (run true C01_ex_t3 pre)) C01_ex_run_mid (500, 1) = true /\
+  map (fun i => snd (step true (fst (run true C01_ex_t3 (pre ++ firstn i C01_ex_run_mid))) (OGet (Some 1) 500) [])) [0; 2; 4]%nat
+  = [OGetRes (GetTrk 500 900); OGetRes (GetTrk 500 900); OGetRes (GetExpired 203)] /\
+  (* the next block (height 205 = 203 + 2) is the ending step: owner purged *)
+  trk_end_of (fst (run true C01_ex_t3 (pre ++ C01_ex_run_mid))) (OConnect 2005 []) [] (500, 1) = Some E_purged /\
+  find_trk (db_trks (fst (run true C01_ex_t3 (pre ++ C01_ex_run_mid ++ [(OConnect 2005 [], [])])))) (500, 1) = None.
+Proof. vm_compute. repeat split; reflexivity. Qed.
+
+(* the literal reading ("reported as dispute_responded as long as the tracker is held") is FALSE of the model:
+   between expiry and expiry + grace the tracker is held and the owner's read is answered SubscriptionExpired.
+   This is the behaviour C09 demands of an expired subscription, not a defect: recorded as a caveat of C01. *)
+Theorem C01_responded_forever_refuted :
+  exists le c h0 blocks t0 h k sc,
+    init c h0 blocks = Some t0 /\ NoDup (map fst blocks) /\ N.of_nat (length blocks) <= h0 /\
+    in_envelope le t0 h = true /\ chain_disciplined le t0 h = true /\
+    find_trk (db_trks (fst (run le t0 h))) (t_loc k, t_user k) = Some k /\
+    snd (step le (fst (run le t0 h)) (OGet (Some (t_user k)) (t_loc k)) sc) <> OGetRes (GetTrk (t_dispute k) (t_penalty k)).
+Proof.
+  exists true, C01_ex_c3, 200, C01_ex_blocks0, C01_ex_t3,
+         (C01_ex_run_pre ++ C01_ex_run_connect :: firstn 4 C01_ex_run_mid), (mk_trk 500 1 500 900 200 false), [].
+  split; [vm_compute; reflexivity|]. split; [exact C01_ex_blocks0_nodup|]. split; [vm_compute; discriminate|].
+  split; [vm_compute; reflexivity|]. split; [vm_compute; reflexivity|]. split; [vm_compute; reflexivity|].
+  vm_compute. discriminate.
+Qed.
+Print Assumptions C01_responded_forever_refuted.
+
+(* the five ending reasons are all reachable: completion at 100 confirmations on a concrete chain *)
+Example C01_ex_run_completed :
+  let pre := C01_ex_pre C01_ex_good ++ [(OConnect 2001 [500], []); (OConnect 2002 [900], [])]
+             ++ map (fun i => (OConnect (3000 + N.of_nat i) [], [])) (seq 0 99) in
+  let t := fst (run true C01_ex_t0 pre) in
+  gk_height t = 301 /\ trk_end_of t (OConnect 4000 []) [] (500, 1) = Some E_completed /\
+  find_trk (db_trks (fst (step true t (OConnect 4000 []) []))) (500, 1) = None.
+Proof. vm_compute. repeat split; reflexivity. Qed.
